@@ -67,6 +67,80 @@ func declaredMethods(repo string, files []string, receivers map[string]bool) []s
 	return out
 }
 
+// allDeclaredNames returns every method name declared anywhere in the
+// repository's non-test sources: methods of any receiver and methods of any
+// interface type. A field that becomes embedded promotes exactly such methods
+// onto a registered receiver, so each of them is a candidate RPC name.
+func allDeclaredNames(repo string) []string {
+	set := map[string]bool{}
+	fset := token.NewFileSet()
+	filepath.Walk(repo, func(path string, info os.FileInfo, err error) error {
+		if err != nil {
+			return nil
+		}
+		if info.IsDir() {
+			if n := info.Name(); n == ".git" || n == "vendor" || n == "node_modules" {
+				return filepath.SkipDir
+			}
+			return nil
+		}
+		if !strings.HasSuffix(path, ".go") || strings.HasSuffix(path, "_test.go") {
+			return nil
+		}
+		af, err := parser.ParseFile(fset, path, nil, 0)
+		if err != nil {
+			return nil
+		}
+		ast.Inspect(af, func(n ast.Node) bool {
+			switch x := n.(type) {
+			case *ast.FuncDecl:
+				if x.Recv != nil {
+					set[x.Name.Name] = true
+				}
+			case *ast.InterfaceType:
+				for _, m := range x.Methods.List {
+					for _, id := range m.Names {
+						set[id.Name] = true
+					}
+				}
+			}
+			return true
+		})
+		return nil
+	})
+	// methods that embedding a standard-library or dependency type would promote
+	for _, n := range []string{"Lock", "Unlock", "RLock", "RUnlock", "Close", "String", "Error", "ServeHTTP", "Read", "Write", "Serve", "Shutdown", "Wait", "Add", "Done", "Stop", "Reset", "Get", "Set", "Delete", "Update", "View", "Sync", "DropAll", "Backup", "Load", "RunValueLogGC", "NewTransaction", "Call", "Handle", "Register", "RegisterMethod"} {
+		set[n] = true
+	}
+	out := []string{}
+	for k := range set {
+		if k != "" && k != "_" {
+			out = append(out, k)
+		}
+	}
+	sort.Strings(out)
+	return out
+}
+
+// registryNames applies the registry's own naming rule (prefix + lower-cased
+// first letter) and the verbatim spelling to a list of method names.
+func registryNames(methods []string, prefixes ...string) []string {
+	set := map[string]bool{}
+	for _, m := range methods {
+		lowerFirst := string(unicode.ToLower(rune(m[0]))) + m[1:]
+		for _, p := range prefixes {
+			set[p+lowerFirst] = true
+			set[p+m] = true
+		}
+	}
+	out := []string{}
+	for k := range set {
+		out = append(out, k)
+	}
+	sort.Strings(out)
+	return out
+}
+
 func nameVariants(methods []string) []string {
 	set := map[string]bool{}
 	for _, m := range methods {
@@ -354,7 +428,7 @@ func writeNodeKey(dir string, id *vlib.Identity) string {
 
 func TestC16(t *testing.T) {
 	ev := vlib.NewEvidence("C16", "exploration",
-		"candidate RPC names are derived from the current tree with go/parser (every method, exported or not, declared on VipnodePool, PaymentService, PoolStatus and Agent) x prefixes {vipnode_, pool_, '', ...} x case variants, plus a fixed list; the whole grid is probed (a) against the built `vipnode pool` binary over HTTP and WebSocket, (b) against the built `vipnode agent` binary over its reverse channel (the harness plays the pool), (c) in-process against the production registration and against jsonrpc2.Server with counting toy receivers (allow-lists, unexported and helper methods, value receivers); for every registered method an arity/type grid (0..n+2 parameters, absent/null/non-array params, every other JSON type at each position) must yield invalid-params without running the method (invocation counters / pool digest); non-trivial = every probe; distinct = (target, name or probe)")
+		"candidate RPC names are derived from the current tree with go/parser (every method, exported or not, declared on VipnodePool, PaymentService, PoolStatus and Agent) x prefixes {vipnode_, pool_, '', ...} x case variants, plus every method name declared on any receiver or interface anywhere in the tree (what an embedded field would promote) under the production prefixes, plus a fixed list; the whole grid is probed (a) against the built `vipnode pool` binary over HTTP and WebSocket, (b) against the built `vipnode agent` binary over its reverse channel (the harness plays the pool), (c) in-process against the production registration and against jsonrpc2.Server with counting toy receivers (allow-lists, unexported and helper methods, value receivers); for every registered method an arity/type grid (0..n+2 parameters, absent/null/non-array params, every other JSON type at each position) must yield invalid-params without running the method (invocation counters / pool digest); non-trivial = every probe; distinct = (target, name or probe)")
 	ev.Assume("null at a parameter position is not counted as wrongly typed (encoding/json accepts it for any type)")
 	repo := os.Getenv("VERIF_REPO")
 	if repo == "" {
@@ -363,6 +437,20 @@ func TestC16(t *testing.T) {
 	methods := declaredMethods(repo, []string{"pool/service.go", "pool/payment/service.go", "pool/status/status.go", "agent/agent.go", "pool/pool.go", "pool/remote.go", "pool/staticpool.go"},
 		map[string]bool{"VipnodePool": true, "PaymentService": true, "PoolStatus": true, "Agent": true})
 	names := nameVariants(methods)
+	// plus, under the production prefixes, every method name declared anywhere in the tree
+	everything := allDeclaredNames(repo)
+	{
+		have := map[string]bool{}
+		for _, n := range names {
+			have[n] = true
+		}
+		for _, n := range registryNames(everything, "vipnode_", "pool_") {
+			if !have[n] {
+				names = append(names, n)
+			}
+		}
+	}
+	ev.Note("method_names_declared_anywhere", len(everything))
 	ev.Note("declared_methods", methods)
 	ev.Note("candidate_names", len(names))
 
